@@ -44,8 +44,8 @@ type listenCase struct {
 	// same key).
 	GiveUp string `json:"give_up,omitempty"`
 	// OtherFirst: an <open/> for an unrelated sid comes before the interesting one.
-	OtherFirst bool `json:"other_sid_first,omitempty"`
-	N          int  `json:"n,omitempty"`
+	OtherFirst bool  `json:"other_sid_first,omitempty"`
+	N          int   `json:"n,omitempty"`
 	Order      []int `json:"order,omitempty"`
 }
 
